@@ -74,7 +74,9 @@ func (m member) decls() (string, string) {
 		// the hook package needs the operand types: declare them there and alias in p
 		hk = strings.ReplaceAll(synthTypes, "func conv(x int) (int, error) { return x, nil }", "") + hk
 		d = "type A0 = hk.A0\ntype A1 = hk.A1\ntype A2 = hk.A2\ntype NT = hk.NT\ntype SrcT = hk.SrcT\ntype DstT = hk.DstT\nfunc conv(x int) (int, error) { return x, nil }\n" +
-			strings.Join(filterLines(d, func(l string) bool { return strings.HasPrefix(l, "func preHook") || strings.HasPrefix(l, "func postHook") }), "\n")
+			strings.Join(filterLines(d, func(l string) bool {
+				return strings.HasPrefix(l, "func preHook") || strings.HasPrefix(l, "func postHook")
+			}), "\n")
 	}
 	return d, hk
 }
